@@ -639,14 +639,153 @@ impl TypedScenario for C01E2E {
     }
 }
 
+
+// ---- RAW: the preamble arrives in pieces (and in non-shortest varint forms) ------------------------
+
+#[derive(Serialize, Deserialize, Clone, Debug)]
+pub struct RawStream {
+    pub bidi: bool,
+    /// varint length used for the session id (1, 2, 4, 8)
+    pub sid_len: usize,
+    /// cut positions inside preamble + payload (ascending byte offsets); a quiescence gap follows each
+    pub cuts: Vec<usize>,
+    pub len: usize,
+    pub key: u64,
+}
+
+#[derive(Serialize, Deserialize, Clone, Debug)]
+pub struct RawPlan {
+    pub base: crate::rawscript::Script,
+    pub streams: Vec<RawStream>,
+    pub close_code: u32,
+}
+
+pub fn exec_raw(p: &RawPlan, trace: bool) -> Exec {
+    use crate::rawscript::*;
+    use crate::refcodec as rc;
+    let mut acts = valid_prologue(p.base.server_under_test);
+    acts.push(Act::Gap);
+    for (i, st) in p.streams.iter().enumerate() {
+        let slot = 200 + i;
+        let mut b = Vec::new();
+        rc::put_varint(if st.bidi { rc::FRAME_WT_STREAM } else { rc::STREAM_WT_UNI }, &mut b);
+        rc::put_varint_len(0, st.sid_len, &mut b);
+        b.extend_from_slice(&pattern(st.key, st.len));
+        acts.push(if st.bidi { Act::OpenBi { slot } } else { Act::OpenUni { slot } });
+        let mut off = 0;
+        for c in &st.cuts {
+            let c = (*c).min(b.len());
+            if c > off {
+                acts.push(Act::Write { slot, hex: hex(&b[off..c]) });
+                acts.push(Act::Gap);
+                off = c;
+            }
+        }
+        if off < b.len() {
+            acts.push(Act::Write { slot, hex: hex(&b[off..]) });
+        }
+        acts.push(Act::Fin { slot });
+    }
+    acts.push(Act::Gap);
+    acts.push(Act::Sleep { us: 200_000 });
+    acts.push(close_capsule_act(p.close_code, b"c01"));
+    let mut s = p.base.clone();
+    s.acts = acts;
+    s.settle_ms = 500;
+    let (mut ex, obs) = run_script(&s, trace, "C01");
+    let Some(obs) = obs else { return ex };
+    ex.nontrivial = p.streams.iter().any(|s| !s.cuts.is_empty());
+    let Some(app) = &obs.app else {
+        ex.violation("C01/establish", format!("{:?}", obs.sut));
+        return ex;
+    };
+    for st in &p.streams {
+        let want = pattern(st.key, st.len);
+        let got = if st.bidi { app.bi.values().any(|b| *b == want) } else { app.uni.values().any(|b| *b == want) };
+        if !got {
+            let seen: Vec<(usize, Vec<u8>)> = if st.bidi { app.bi.values() } else { app.uni.values() }.map(|b| (b.len(), b[..b.len().min(6)].to_vec())).collect();
+            ex.violation(
+                "C01/raw-preamble",
+                format!(
+                    "{} stream whose preamble (session id on {} bytes) and {}-byte payload arrived in pieces cut at {:?}: the application did not read exactly the payload; it read streams (len, first bytes) {:?}; errors {:?} {:?}; raw peer {:?}",
+                    if st.bidi { "bidi" } else { "uni" },
+                    st.sid_len,
+                    st.len,
+                    st.cuts,
+                    seen,
+                    app.uni_err,
+                    app.bi_err,
+                    obs.raw_close
+                ),
+            );
+            return ex;
+        }
+    }
+    let n_uni = p.streams.iter().filter(|s| !s.bidi).count();
+    let n_bi = p.streams.len() - n_uni;
+    if app.uni.len() + app.uni_err.len() != n_uni || app.bi.len() + app.bi_err.len() != n_bi {
+        ex.violation("C01/invented-stream", format!("application was handed {} uni / {} bidi streams, the peer opened {n_uni} / {n_bi}", app.uni.len(), app.bi.len()));
+    }
+    ex
+}
+
+pub struct C01Raw;
+
+impl TypedScenario for C01Raw {
+    type Plan = RawPlan;
+    fn name(&self) -> &'static str {
+        "raw-preamble-segmentation"
+    }
+    fn budget(&self, tier: Tier) -> usize {
+        match tier {
+            Tier::Quick => 2000,
+            Tier::Thorough => 150_000,
+        }
+    }
+    fn generate(&self, seed: u64, index: usize, _tier: Tier) -> RawPlan {
+        let mut rng = Rng::new(seed, "c01-raw");
+        let mut base = crate::rawscript::base_script(seed, index % 2 == 0);
+        base.net.lat_min_us = *rng.pick(&[200u64, 1_000, 5_000]);
+        base.read_cap = if rng.chance_pm(200) { rng.usize(1, 3) } else { 0 };
+        let n = rng.usize(1, 4);
+        let streams = (0..n)
+            .map(|_| {
+                let sid_len = *rng.pick(&[1usize, 1, 2, 4, 8]);
+                let len = *rng.pick(&[0usize, 1, 2, 9, 64, 1000, 5000]);
+                let pre = 2 + sid_len;
+                let ncuts = rng.usize(0, 3);
+                let mut cuts: Vec<usize> = (0..ncuts).map(|_| if rng.chance_pm(800) { rng.usize(1, pre) } else { rng.usize(1, pre + len.max(1)) }).collect();
+                cuts.sort();
+                cuts.dedup();
+                RawStream { bidi: rng.coin(), sid_len, cuts, len, key: rng.next_u64() }
+            })
+            .collect();
+        RawPlan { base, streams, close_code: rng.next_u64() as u32 }
+    }
+    fn execute(&self, plan: &RawPlan, trace: bool) -> Exec {
+        exec_raw(plan, trace)
+    }
+    fn shrink(&self, plan: &RawPlan) -> Vec<RawPlan> {
+        let v = serde_json::to_value(plan).unwrap();
+        let mut c = shrink_array(&v, "/streams", 1);
+        for i in 0..plan.streams.len() {
+            c.extend(shrink_array(&v, &format!("/streams/{i}/cuts"), 0));
+            c.extend(shrink_num(&v, &format!("/streams/{i}/len"), 1));
+        }
+        c.extend(shrink_num(&v, "/base/read_cap", 0));
+        c.into_iter().filter_map(|v| serde_json::from_value(v).ok()).collect()
+    }
+}
+
 pub fn def() -> PropertyDef {
     PropertyDef {
         id: "C01",
         scenarios: vec![
             Box::new(Typed(C01E2E { faulty: false })),
             Box::new(Typed(C01E2E { faulty: true })),
+            Box::new(Typed(C01Raw)),
         ],
-        rule: "Each run: real wtransport client and server over the simulated network, 1-12 concurrent streams over the roles {client,server} x {uni, bidi (both directions)}, payload lengths boundary-biased from 0 to 3 flow-control windows (windows are per-run knobs), generated write partitions (write / write_all / tokio AsyncWrite) and read partitions (read / read_exact / tokio AsyncRead, buffers 1 B..64 KiB) with pauses, optional 1-3 byte short-read cap on protocol-level reads. A run is non-trivial when the session was established, at least one flow was verified byte-for-byte to end-of-stream with >0 bytes and (fault sub-batch) at least one network fault fired; distinct = distinct plan hashes among those.",
+        rule: "Each run: real wtransport client and server over the simulated network, 1-12 concurrent streams over the roles {client,server} x {uni, bidi (both directions)}, payload lengths boundary-biased from 0 to 3 flow-control windows (windows are per-run knobs), generated write partitions (write / write_all / tokio AsyncWrite) and read partitions (read / read_exact / tokio AsyncRead, buffers 1 B..64 KiB) with pauses, optional 1-3 byte short-read cap on protocol-level reads. A run is non-trivial when the session was established, at least one flow was verified byte-for-byte to end-of-stream with >0 bytes and (fault sub-batch) at least one network fault fired; distinct = distinct plan hashes among those. raw-preamble-segmentation: the scripted raw peer (both roles) opens 1-4 WebTransport uni / bidi streams whose preamble (type / signal + session id encoded on 1, 2, 4 or 8 bytes) and payload (0..5000 B) are written in 1-4 pieces with network quiescence between the pieces (cuts mostly inside the preamble), optionally under the short-read cap; the application must read exactly the payload of every stream and be handed nothing else.",
         assumptions: vec![
             "quinn, quinn-proto, rustls, ring and tokio are executed for real but trusted: a QUIC-level data loss would be attributed to wtransport until triaged",
             "parallelism is modelled as interleaving at await points on a current-thread runtime; data races inside tokio/quinn primitives are out of scope",
